@@ -155,6 +155,8 @@ var aggHTTP bool
 
 // aggElems builds the elements of one record (the 8 arguments of `agg rec`, and h=<hex> in an http session); v6 = the
 // key is an IPv6 5-tuple
+var aggIP16 bool // see aggElems
+
 func aggElems(a []string) (out []entities.InfoElementWithValue, v6 bool, err error) {
 	var httpVals []byte
 	if aggHTTP {
@@ -208,8 +210,14 @@ func aggElems(a []string) (out []entities.InfoElementWithValue, v6 bool, err err
 		es = append(es, entities.NewIPAddressInfoElement(regIE("sourceIPv6Address"), net.ParseIP(fk.src)))
 		es = append(es, entities.NewIPAddressInfoElement(regIE("destinationIPv6Address"), net.ParseIP(fk.dst)))
 	} else {
-		es = append(es, entities.NewIPAddressInfoElement(regIE("sourceIPv4Address"), net.ParseIP(fk.src).To4()))
-		es = append(es, entities.NewIPAddressInfoElement(regIE("destinationIPv4Address"), net.ParseIP(fk.dst).To4()))
+		// in-process callers hand IPv4 addresses over in either byte form (net.ParseIP gives 16 bytes, To4 4): the
+		// flow is the same. `agg rec` with an odd p<n> uses the 16-byte form for the record's key addresses.
+		src, dst := net.ParseIP(fk.src), net.ParseIP(fk.dst)
+		if !aggIP16 {
+			src, dst = src.To4(), dst.To4()
+		}
+		es = append(es, entities.NewIPAddressInfoElement(regIE("sourceIPv4Address"), src))
+		es = append(es, entities.NewIPAddressInfoElement(regIE("destinationIPv4Address"), dst))
 	}
 	es = append(es, entities.NewUnsigned8InfoElement(regIE("flowType"), uint8(ft)))
 	for i, name := range corrFields {
@@ -537,7 +545,9 @@ func engAgg(a []string) string {
 		if len(a) != nargs {
 			return "bad-op"
 		}
+		aggIP16 = perm >= 0 && perm%2 == 1
 		rec, err := aggRecord(a[1:])
+		aggIP16 = false
 		if err == nil && perm >= 0 {
 			es := append([]entities.InfoElementWithValue{}, rec.GetOrderedElementList()...)
 			rand.New(rand.NewSource(perm)).Shuffle(len(es), func(i, j int) { es[i], es[j] = es[j], es[i] })
